@@ -41,6 +41,11 @@ CompactLemma ==
   \A off \in {0, 5, 16, 17, 30} : \A n \in 0 .. 36 : \A t \in SeqsUpTo({NL, 97, 97 + ((off + n) % 23)}, 3) :
     LET d == D(off, n, t)
     IN /\ DExpand(DStrip(d)) = Strip(DExpand(d))
+       /\ \A hd \in {<<NL>>, <<255, NL>>, <<NL, NL>>} :
+            LET e == DH(hd, off, n, t)
+            IN /\ DExpand(DStrip(e)) = Strip(DExpand(e))
+               /\ DLen(e) = Len(DExpand(e))
+               /\ \A k \in 0 .. PMin(3, DLen(e)) : DExpand(DTrim(e, k)) = SubSeq(DExpand(e), 1, DLen(e) - k)
        /\ DRep(d) = SeqRep(DExpand(d), off)
        /\ DLen(d) = Len(DExpand(d))
        /\ (DFirstNLInStream(d) # 0 => DFirstNLInStream(d) = FirstNL(DExpand(d)))
